@@ -2,7 +2,7 @@ CONSTANTS
   Twins = {"none", "sibling"}
   Modes = {"single", "multi"}
   Kinds = {"struct", "newtype_struct", "unit_struct", "unit_enum", "tagged_enum", "alias", "const"}
-  Annotations = {"none", "plain", "path", "args"}
+  Annotations = {"none", "plain", "path", "args", "abs_path", "spaced"}
   Nestings = {"top", "mod1", "mod2", "fn_body", "const_block", "static_block", "trait_default_fn"}
   SkipSets = {"none", "first", "last", "first_last"}
   SkipSpellings = {"serde_skip", "typeshare_skip", "serde_after_kv"}
